@@ -204,6 +204,8 @@ def main(tier):
     if meta:
         x = next(iter(meta.values()))
         chk.sample({"doc": x[0]["doc"], "expected_tags": tag_projection(x[0]["cat"][0])})
+    import pathspec
+    pathspec.run(chk, tier, "C19")
     chk.rule = ("function table: all first segments <= %d over 9 characters; documents: TLC-generated with tag-related features; "
                 "distinct = distinct documents / segments" % maxlen)
     chk.assumptions += ["segments that are empty, '.', or contain '/' have no tag of their own (documented skipping)"]
@@ -213,6 +215,10 @@ def main(tier):
 def replay(path):
     rp = json.load(open(path))["replay"]
     chk = Check("C19", "quick")
+    if rp.get("kind") == "pathspec":
+        import pathspec
+        pathspec.replay(chk, "C19", rp)
+        return chk.finish()
     chk.evaluations = 1
     if rp["kind"] == "tagname" and rp.get("pair"):
         a, b, _ = rp["pair"]
